@@ -5,9 +5,11 @@ pub mod oracles;
 pub mod c01;
 pub mod c02;
 pub mod c03;
+pub mod c06;
+pub mod c07;
 
 use crate::engine::DynProperty;
 
 pub fn registry() -> Vec<Box<dyn DynProperty>> {
-    vec![Box::new(c01::C01), Box::new(c02::C02), Box::new(c03::C03)]
+    vec![Box::new(c01::C01), Box::new(c02::C02), Box::new(c03::C03), Box::new(c06::C06), Box::new(c07::C07)]
 }
